@@ -359,16 +359,6 @@ func mstNames(rp *meta.RetentionPolicyInfo) []string {
 	return out
 }
 
-func liveGroups(rp *meta.RetentionPolicyInfo) int {
-	n := 0
-	for i := range rp.ShardGroups {
-		if !rp.ShardGroups[i].Deleted() {
-			n++
-		}
-	}
-	return n
-}
-
 // ---------------------------------------------------------------- value generators
 
 var sgDurs = []int64{hour, 2 * hour, 3 * hour, 4 * hour, day, 7 * day, 30 * int64(time.Minute), 90 * int64(time.Minute)}
